@@ -17,12 +17,12 @@ def generic_effects():
     E = {}
     adv = re_.g_adv
     E["default.copy_to"] = re_.Effect(None, lambda num, p, w: [
-        ("destination receives exactly n bits", re_.eq(re_.mem_aff(num, p, adv(("arg", 2, "bit_write"))), num.aff(adv(("arg", 2, "bit_write"))) + num.aff(("arg", 3, "n")))),
-        ("source advances by exactly n (through its own read_bits)", re_.eq(re_.mem_aff(num, p, ("ghost", "selfadv")), num.aff(("ghost", "selfadv")) + num.aff(("arg", 3, "n"))))],
+        ("destination receives exactly n bits", re_.eq(re_.mem_aff(num, p, adv(("arg", 2, "arg2"))), num.aff(adv(("arg", 2, "arg2"))) + num.aff(("arg", 3, "arg3")))),
+        ("source advances by exactly n (through its own read_bits)", re_.eq(re_.mem_aff(num, p, ("ghost", "selfadv")), num.aff(("ghost", "selfadv")) + num.aff(("arg", 3, "arg3"))))],
         "default copy_to(w, n): n bits read from self, n bits written to w")
     E["default.copy_from"] = re_.Effect(None, lambda num, p, w: [
-        ("source advances by exactly n", re_.eq(re_.mem_aff(num, p, adv(("arg", 2, "bit_read"))), num.aff(adv(("arg", 2, "bit_read"))) + num.aff(("arg", 3, "n")))),
-        ("destination grows by exactly n (through its own write_bits)", re_.eq(re_.mem_aff(num, p, ("ghost", "selfadv")), num.aff(("ghost", "selfadv")) + num.aff(("arg", 3, "n"))))],
+        ("source advances by exactly n", re_.eq(re_.mem_aff(num, p, adv(("arg", 2, "arg2"))), num.aff(adv(("arg", 2, "arg2"))) + num.aff(("arg", 3, "arg3")))),
+        ("destination grows by exactly n (through its own write_bits)", re_.eq(re_.mem_aff(num, p, ("ghost", "selfadv")), num.aff(("ghost", "selfadv")) + num.aff(("arg", 3, "arg3"))))],
         "default copy_from(r, n): n bits read from r, n bits written to self")
     return E
 
